@@ -78,8 +78,22 @@ func (t *Target) init() error {
 		return err
 	}
 	t.file = fd
+	// the extension numbers the generated code of this target knows, per extended message type
+	t.extTypes().RangeExtensions(func(xt protoreflect.ExtensionType) bool {
+		xd := xt.TypeDescriptor()
+		full := xd.ContainingMessage().FullName()
+		if knownExtNums[full] == nil {
+			knownExtNums[full] = map[protoreflect.FieldNumber]bool{}
+		}
+		knownExtNums[full][xd.Number()] = true
+		return true
+	})
 	return nil
 }
+
+// knownExtNums: message full name -> numbers of the extensions declared for it in the schema (the ones the
+// generated code decodes; any other number inside an extension range is a field the schema does not define).
+var knownExtNums = map[protoreflect.FullName]map[protoreflect.FieldNumber]bool{}
 
 func (t *Target) desc(name string) protoreflect.MessageDescriptor {
 	d, err := t.files.FindDescriptorByName(protoreflect.FullName(string(t.file.Package()) + "." + name))
@@ -585,6 +599,46 @@ func minimalMessage(md protoreflect.MessageDescriptor) *dynamicpb.Message {
 			m.Set(fd, protoreflect.ValueOfMessage(minimalMessage(fd.Message())))
 		} else {
 			m.Set(fd, fd.Default())
+		}
+	}
+	return m
+}
+
+// filledMessage: every scalar field (singular, one element of a list, the first member of each real oneof) holds a
+// non-default boundary value; message-typed fields one level down, then only the required ones.
+func filledMessage(md protoreflect.MessageDescriptor, depth int) *dynamicpb.Message {
+	m := dynamicpb.NewMessage(md)
+	seenOneof := map[protoreflect.FullName]bool{}
+	for i := 0; i < md.Fields().Len(); i++ {
+		fd := md.Fields().Get(i)
+		if oo := fd.ContainingOneof(); oo != nil && !oo.IsSynthetic() {
+			if seenOneof[oo.FullName()] {
+				continue
+			}
+			seenOneof[oo.FullName()] = true
+		}
+		switch {
+		case fd.IsMap():
+			continue
+		case fd.Message() != nil:
+			var sub *dynamicpb.Message
+			switch {
+			case depth < 1:
+				sub = filledMessage(fd.Message(), depth+1)
+			case fd.Cardinality() == protoreflect.Required:
+				sub = minimalMessage(fd.Message())
+			default:
+				continue
+			}
+			if fd.IsList() {
+				m.Mutable(fd).List().Append(protoreflect.ValueOfMessage(sub))
+			} else {
+				m.Set(fd, protoreflect.ValueOfMessage(sub))
+			}
+		case fd.IsList():
+			m.Mutable(fd).List().Append(boundary(fd, 1))
+		default:
+			m.Set(fd, boundary(fd, 1))
 		}
 	}
 	return m
